@@ -109,7 +109,7 @@ PairCfg paircfg_from_plan(const Plan &p) {
     c.cb_s = (int) p.get("cb_s", CB_ALLOW_ALL);
     c.cb_allow_alert_c = (int) p.get("cb_alert", 0);
     c.client_trusts_server = p.get("trust", 1) != 0;
-    c.forge_server_cert = p.get("forge_s") != 0; c.forge_client_cert = p.get("forge_c") != 0; c.forge_mode = (int) p.get("forge_mode"); c.max_frag = (int) p.get("maxfrag");
+    c.forge_server_cert = p.get("forge_s") != 0; c.forge_client_cert = p.get("forge_c") != 0; c.forge_mode = (int) p.get("forge_mode"); c.max_frag = (int) p.get("maxfrag"); c.send_sni = p.get("sni") != 0;
     c.expected_name = p.gets("expected_name");
     c.max_early_data = (int) p.get("early", 0);
     c.ems_c = (int) p.get("ems_c", 0);
@@ -174,7 +174,7 @@ bool TlsWorld::connect(bool use_sid) {
     c.fallback_scsv = pc.fallback_scsv;
     s.max_early_data = pc.max_early_data;
     c.groups = pc.groups_c; s.groups = pc.groups_s; c.key_shares = pc.key_shares;
-    c.sigalgs = pc.sigalgs_c; s.sigalgs = pc.sigalgs_s; c.max_frag = pc.max_frag;
+    c.sigalgs = pc.sigalgs_c; s.sigalgs = pc.sigalgs_s; c.max_frag = pc.max_frag; c.send_sni = pc.send_sni;
     c.sid = use_sid ? sid : nullptr;
     srv.reset(new MxEndpoint()); cli.reset(new MxEndpoint());
     srv->keep_log = cli->keep_log = keep_logs;
